@@ -441,8 +441,10 @@ pub async fn pools_scenario(nl: usize, nd: usize, grace_s: u64, out: &mut ScOut)
     let transport = ScriptedTransport { shared: shared.clone(), rx: Mutex::new(Some(rx)) };
     let mut cfg = server_config(30_000, seed_addr);
     if (nl + nd) % 2 == 1 {
-        // the node's own address is also configured as a seed (a common deployment: one seed list for everybody)
+        // the node's own address is also configured as a seed (a common deployment: one seed list for everybody), and
+        // one seed is given by name: the seed set is then re-resolved and re-published every 60 s
         cfg.seed_nodes.push(self_addr.to_string());
+        cfg.seed_nodes.push("localhost:30001".to_string());
     }
     cfg.failure_detector_config = FailureDetectorConfig { phi_threshold: 3.0, sampling_window_size: 10, max_interval: Duration::from_secs(2), initial_interval: Duration::from_secs(1), dead_node_grace_period: Duration::from_secs(grace_s) };
     let handle = match spawn_chitchat(cfg, vec![], &transport).await {
@@ -455,7 +457,7 @@ pub async fn pools_scenario(nl: usize, nd: usize, grace_s: u64, out: &mut ScOut)
     let lives: Vec<WId> = (0..nl).map(|i| WId { node_id: format!("live{i}"), generation: 0, addr: addr(30_010 + i as u16) }).collect();
     let deads: Vec<WId> = (0..nd).map(|i| WId { node_id: format!("dead{i}"), generation: 0, addr: addr(30_020 + i as u16) }).collect();
     tokio::time::sleep(Duration::from_millis(500)).await;
-    let horizon = grace_s + 25;
+    let horizon = grace_s + 45;
     let mut hbv = 1u64;
     for k in 0..horizon {
         hbv += 1;
@@ -464,7 +466,7 @@ pub async fn pools_scenario(nl: usize, nd: usize, grace_s: u64, out: &mut ScOut)
             digest.extend(deads.iter().map(|id| WDigestEntry { id: id.clone(), heartbeat: hbv, last_gc: 0, max_version: 0 }));
         }
         let bytes = syn_bytes("c", &digest);
-        let (live, dead, peers, sched): (Vec<SocketAddr>, Vec<SocketAddr>, Vec<SocketAddr>, usize) = handle
+        let (live, dead, peers, sched, seeds): (Vec<SocketAddr>, Vec<SocketAddr>, Vec<SocketAddr>, usize, Vec<SocketAddr>) = handle
             .with_chitchat(|c| {
                 if !digest.is_empty() {
                     let _ = crate::craft::feed(c, &bytes);
@@ -475,6 +477,7 @@ pub async fn pools_scenario(nl: usize, nd: usize, grace_s: u64, out: &mut ScOut)
                     c.dead_nodes().map(|i| i.gossip_advertise_addr).collect(),
                     c.node_states().keys().filter(|i| **i != me).map(|i| i.gossip_advertise_addr).collect(),
                     c.scheduled_for_deletion_nodes().count(),
+                    c.seed_nodes().into_iter().filter(|a| *a != me.gossip_advertise_addr).collect(),
                 )
             })
             .await;
@@ -487,12 +490,15 @@ pub async fn pools_scenario(nl: usize, nd: usize, grace_s: u64, out: &mut ScOut)
         if sched > 0 {
             out.c.inc("server_rounds_with_members_scheduled_for_deletion");
         }
-        let ctx = format!("{what}: round at t={}s with live {live:?} dead {dead:?} known {peers:?} ({sched} scheduled for deletion) sent SYNs to {dests:?}", k + 1);
+        let ctx = format!("{what}: round at t={}s with live {live:?} dead {dead:?} known {peers:?} ({sched} scheduled for deletion) seeds {seeds:?} sent SYNs to {dests:?}", k + 1);
         if dests.is_empty() {
             out.findings.push(Finding::new(&["C17", "C19"], "pools.no_round", format!("{ctx}: no SYN at all (a seed exists)")));
             break;
         }
-        if dests.contains(&self_addr) || dests.iter().any(|d| !peers.contains(d) && *d != seed_addr) {
+        if seeds.len() > 1 {
+            out.c.inc("server_rounds_with_resolved_seed_names");
+        }
+        if dests.contains(&self_addr) || dests.iter().any(|d| !peers.contains(d) && !seeds.contains(d)) {
             out.findings.push(Finding::new(&["C17"], "pools.foreign_target", format!("{ctx}: a target is the node itself or in none of the pools")));
         }
         if dests.len() > 5 {
@@ -502,7 +508,7 @@ pub async fn pools_scenario(nl: usize, nd: usize, grace_s: u64, out: &mut ScOut)
             if dests.iter().filter(|d| dead.contains(d)).count() > 1 {
                 out.findings.push(Finding::new(&["C17"], "pools.too_many_dead", format!("{ctx}: more than one dead peer")));
             }
-        } else if !dests.contains(&seed_addr) {
+        } else if !seeds.is_empty() && !dests.iter().any(|d| seeds.contains(d)) {
             out.findings.push(Finding::new(&["C17"], "pools.seed_not_contacted", format!("{ctx}: no live peer is known and a seed exists, yet no seed is contacted")));
         }
         if dead.len() > live.len() {
